@@ -166,6 +166,13 @@ func bidx(c *Ctx, rule string, funcs []*ssa.Function, exempt map[string]string) 
 			if matched {
 				continue
 			}
+			// a function-level exemption for every site whose indexed value is (a re-slice of) one named parameter
+			if bp := siteBaseParam(s.Instr); bp != "" {
+				if why, ok := exempt[rule+"|"+fname(f)+"|@base:"+bp]; ok {
+					c.Notes = append(c.Notes, "exempt "+key+": "+why)
+					continue
+				}
+			}
 			// a function-level exemption for the second pass of a two-pass parse: the site lies in a loop that comes
 			// after (is dominated by the header of, without being nested in) an earlier loop of the same function
 			if why, ok := exempt[rule+"|"+fname(f)+"|@second-pass"]; ok && inSecondPassLoop(f, s.Instr.Block()) {
@@ -503,4 +510,50 @@ func inSecondPassLoop(f *ssa.Function, b *ssa.BasicBlock) bool {
 		}
 	}
 	return false
+}
+
+// siteBaseParam: the parameter (name from the reference list) that the indexed or sliced value of a bounds site is,
+// through re-slices and joins of re-slices; "" when it is anything else
+func siteBaseParam(in ssa.Instruction) string {
+	var base ssa.Value
+	switch x := in.(type) {
+	case *ssa.IndexAddr:
+		base = x.X
+	case *ssa.Index:
+		base = x.X
+	case *ssa.Slice:
+		base = x.X
+	default:
+		return ""
+	}
+	seen := map[ssa.Value]bool{}
+	var prm *ssa.Parameter
+	ok := true
+	var walk func(v ssa.Value)
+	walk = func(v ssa.Value) {
+		if seen[v] || !ok {
+			return
+		}
+		seen[v] = true
+		switch y := v.(type) {
+		case *ssa.Parameter:
+			if prm != nil && prm != y {
+				ok = false
+			}
+			prm = y
+		case *ssa.Slice:
+			walk(y.X)
+		case *ssa.Phi:
+			for _, e := range y.Edges {
+				walk(e)
+			}
+		default:
+			ok = false
+		}
+	}
+	walk(base)
+	if !ok || prm == nil {
+		return ""
+	}
+	return pname(prm)
 }
